@@ -73,6 +73,18 @@ type obs struct {
 	Msgs []string `json:"msgs,omitempty"`
 }
 
+// clPoolId maps the case's 0-based pool index to the chain's pool id; -1 stands for pool id 0, an index beyond the
+// pools created for a pool that does not exist
+func clPoolId(ids []uint64, i int) uint64 {
+	if i < 0 {
+		return 0
+	}
+	if i >= len(ids) {
+		return 999999
+	}
+	return ids[i]
+}
+
 func mustInt(s string) osmomath.Int {
 	v, ok := osmomath.NewIntFromString(s)
 	if !ok {
@@ -306,7 +318,7 @@ func run(t *testing.T, c tcase) obs {
 				var e error
 				id, e = app.IncentivesKeeper.CreateGauge(ctx, x.Perp == 1, users[x.U], mkCoins(x.Coins),
 					lockuptypes.QueryCondition{LockQueryType: lockuptypes.NoLock, Denom: "", Duration: time.Nanosecond},
-					base.Add(time.Duration(x.Start)*time.Millisecond), x.N, clIds[x.Pool])
+					base.Add(time.Duration(x.Start)*time.Millisecond), x.N, clPoolId(clIds, x.Pool))
 				return e
 			})
 			if err == nil {
